@@ -260,6 +260,45 @@ func runItem(w *hx.Worker, sh *shared, it genfam.Item, onlyInput *string) {
 			}
 		}
 	}
+	if propC07 && onlyInput == nil {
+		// the empty input through every entry point (nil and zero-length buffers included): EOF at 1:1, no panic
+		for name, mk := range map[string]func() (lexer.Lexer, error){
+			"Lex(empty reader)": func() (lexer.Lexer, error) { return gen.Lex("f.txt", strings.NewReader("")) },
+			"LexString(\"\")": func() (lexer.Lexer, error) {
+				if sd, ok := gen.(lexer.StringDefinition); ok {
+					return sd.LexString("f.txt", "")
+				}
+				return gen.Lex("f.txt", strings.NewReader(""))
+			},
+			"LexBytes(nil)": func() (lexer.Lexer, error) {
+				if bd, ok := gen.(lexer.BytesDefinition); ok {
+					return bd.LexBytes("f.txt", nil)
+				}
+				return gen.Lex("f.txt", strings.NewReader(""))
+			},
+			"LexBytes([]byte{})": func() (lexer.Lexer, error) {
+				if bd, ok := gen.(lexer.BytesDefinition); ok {
+					return bd.LexBytes("f.txt", make([]byte, 0, 8)[:0])
+				}
+				return gen.Lex("f.txt", strings.NewReader(""))
+			},
+		} {
+			w.Count("evaluations", 1)
+			var t lexer.Token
+			var err error
+			pan, msg := hx.Guard(func() {
+				var lx lexer.Lexer
+				if lx, err = mk(); err == nil {
+					t, err = lx.Next()
+				}
+			})
+			if pan {
+				w.Violate(hx.Violation{Key: "generated " + key(it, "") + " :: " + name, Class: "panic", Detail: map[string]any{"panic": msg}})
+			} else if err != nil || !t.EOF() || t.Pos.Offset != 0 || t.Pos.Line != 1 || t.Pos.Column != 1 {
+				w.Violate(hx.Violation{Key: "generated " + key(it, "") + " :: " + name, Class: "progress", Detail: map[string]any{"what": fmt.Sprintf("empty input: token %#v, error %v", t, err)}})
+			}
+		}
+	}
 	if propC07 {
 		// C07 on generated lexers: every Next returns, no panic, non-empty tokens, at most len(input) tokens,
 		// EOF is sticky, calls after an error return (a hang is caught by the supervisor watchdog)
